@@ -295,6 +295,9 @@ pub struct Validator<'a> {
     /// at an established level. Fixed-size to keep the success path allocation-free.
     frame_indent: [u32; MAX_NESTING_DEPTH],
     frame_kind: [LineKind; MAX_NESTING_DEPTH],
+    /// The frame was opened by a node that starts after a block indicator on
+    /// its line (`- k: v`, `- - x`), not by a line's own indentation.
+    frame_compact: [bool; MAX_NESTING_DEPTH],
     frame_len: usize,
     /// The current content line carried a trailing `# comment`.
     line_had_comment: bool,
@@ -338,6 +341,7 @@ impl<'a> Validator<'a> {
             root_kind: None,
             frame_indent: [0; MAX_NESTING_DEPTH],
             frame_kind: [LineKind::Scalar; MAX_NESTING_DEPTH],
+            frame_compact: [false; MAX_NESTING_DEPTH],
             frame_len: 0,
             line_had_comment: false,
             root_scalar_done: false,
@@ -443,23 +447,32 @@ impl<'a> Validator<'a> {
             return Ok(());
         }
 
-        // Dedent: drop deeper frames.
+        // Dedent: drop deeper frames. Leaving a compact node's level is not a
+        // dedent out of an indentation level of its own.
         let mut popped = false;
         while self.frame_len > 0 && self.frame_indent[self.frame_len - 1] > d {
             self.frame_len -= 1;
-            popped = true;
+            popped |= !self.frame_compact[self.frame_len];
         }
 
         if self.frame_len == 0 {
             if matches!(kind, LineKind::Seq | LineKind::Map) {
                 self.push_frame(d, kind)?;
             }
+            self.push_compact_frames();
             return Ok(());
         }
 
         let top_indent = self.frame_indent[self.frame_len - 1];
         let top_kind = self.frame_kind[self.frame_len - 1];
-        if top_indent == d {
+        if top_indent == d && self.frame_compact[self.frame_len - 1] {
+            // Sibling of a compact node (`- a:\n    x: 1\n  b: 2`): the level
+            // exists, and from here on it is an ordinary one.
+            self.frame_compact[self.frame_len - 1] = false;
+            if (top_kind, kind) == (LineKind::Map, LineKind::Seq) {
+                self.push_frame(d, LineKind::Seq)?;
+            }
+        } else if top_indent == d {
             // Sibling at an established level.
             match (top_kind, kind) {
                 // A block sequence value sits at its mapping key's indentation.
@@ -483,6 +496,7 @@ impl<'a> Validator<'a> {
                 self.push_frame(d, kind)?;
             }
         }
+        self.push_compact_frames();
         Ok(())
     }
 
@@ -495,8 +509,45 @@ impl<'a> Validator<'a> {
         }
         self.frame_indent[self.frame_len] = indent;
         self.frame_kind[self.frame_len] = kind;
+        self.frame_compact[self.frame_len] = false;
         self.frame_len += 1;
         Ok(())
+    }
+
+    /// A node that starts after a block indicator on the same line (`- - x`,
+    /// `- k: v`, `? - x`) opens a level at the column where it starts. Record
+    /// those levels, marked compact, so that a later line dedenting to such a
+    /// column is a sibling there (`- a:\n    x: 1\n  b: 2`) rather than a
+    /// dedent that landed between two levels. Compact levels only ever widen
+    /// what is accepted: they raise no error of their own and are not counted
+    /// against the nesting limit.
+    fn push_compact_frames(&mut self) {
+        let line_start = self.offset - self.line_indent;
+        let saved = self.offset;
+        let mut i = self.offset;
+        while matches!(self.input.get(i), Some(b'-' | b'?' | b':'))
+            && self.input.get(i + 1) == Some(&b' ')
+        {
+            i += 1;
+            while self.input.get(i) == Some(&b' ') {
+                i += 1;
+            }
+            self.offset = i;
+            let kind = self.line_kind();
+            self.offset = saved;
+            let col = (i - line_start) as u32;
+            if kind == LineKind::Scalar
+                || matches!(self.input.get(i), Some(b'&' | b'*' | b'!'))
+                || self.frame_len >= MAX_NESTING_DEPTH
+                || (self.frame_len > 0 && self.frame_indent[self.frame_len - 1] >= col)
+            {
+                break;
+            }
+            self.frame_indent[self.frame_len] = col;
+            self.frame_kind[self.frame_len] = kind;
+            self.frame_compact[self.frame_len] = true;
+            self.frame_len += 1;
+        }
     }
 
     /// At the document root (indent 0), enforce that every top-level node is
